@@ -519,20 +519,3 @@ Definition full_trace (sess : Z) (notify : bool) (window : Z) (ops : list op) : 
 (* observed: the implementation's observation of the initial state followed by one observation per op *)
 Definition check_case (sess : Z) (notify : bool) (window : Z) (ops : list op) (observed : list (list Z)) : option (nat * list Z) :=
   first_diff 0 (full_trace sess notify window ops) observed.
-
-(* The same comparison through a digest of each observation row (keeps the generated cases file
-   small): polynomial hash modulo the Mersenne prime 2^61-1. *)
-Definition hash_p : Z := 2305843009213693951.
-Definition row_hash (r : list Z) : Z :=
-  fold_left (fun acc x => (acc * 1000003 + x + 17) mod hash_p) r 7.
-
-Fixpoint first_diff_h (k : nat) (m : list (list Z)) (o : list Z) : option (nat * list Z) :=
-  match m, o with
-  | [], [] => None
-  | x :: m', y :: o' => if row_hash x =? y then first_diff_h (S k) m' o' else Some (k, x)
-  | x :: _, [] => Some (k, x)
-  | [], _ :: _ => Some (k, [])
-  end.
-
-Definition check_case_h (sess : Z) (notify : bool) (window : Z) (ops : list op) (digests : list Z) : option (nat * list Z) :=
-  first_diff_h 0 (full_trace sess notify window ops) digests.
